@@ -231,7 +231,7 @@ static std::vector<ClassInfo> g_classes;
 static int g_tier = 0;
 static bool g_dump = false;
 
-struct EnumBlock { unsigned ci, ri; uint64_t first, count; };
+struct EnumBlock { unsigned ci, ri; uint64_t first, count; bool saturated; };
 static std::vector<EnumBlock> g_enum;
 static uint64_t g_enum_total = 0;
 
@@ -517,8 +517,16 @@ static void init_tables() {
             if (!r.fixed()) continue;
             unsigned bits = r.info.vk == VK_ENUM ? r.eff_width : r.info.repr_bits;
             if (bits == 0 || bits > enum_limit()) continue;
-            g_enum.push_back(EnumBlock{ci, ri, g_enum_total, 1ULL << bits});
+            g_enum.push_back(EnumBlock{ci, ri, g_enum_total, 1ULL << bits, false});
             g_enum_total += 1ULL << bits;
+        }
+    // second block: every fixed-size field (any width) x {0, all ones, 1010..} on an object whose OTHER fields were all
+    // set to their maximum first ("saturated" prior state: a setter that clears a neighbour's bit shows deterministically)
+    for (unsigned ci = 0; ci < g_classes.size(); ++ci)
+        for (unsigned ri = 0; ri < g_classes[ci].rows.size(); ++ri) {
+            if (!g_classes[ci].rows[ri].fixed()) continue;
+            g_enum.push_back(EnumBlock{ci, ri, g_enum_total, 3, true});
+            g_enum_total += 3;
         }
     if (g_dump) {
         unsigned nrows = 0, tabled = 0, mapped = 0;
@@ -547,6 +555,7 @@ struct Case {
     bool overflow = false;
     bool inner = false;
     bool force_variant = true;
+    bool saturated = false;   // enumerated block 2: all other fields at their maximum
     Bytes payload;
     Val v;
     std::vector<std::string> program;
@@ -617,6 +626,18 @@ static void run_case(Src& s, Ctx& ctx, Case& cs) {
             if (verif::apply_setter(*p, k, sc) && sc.applied) cs.program.push_back(sc.describe());
         }
     }
+    if (cs.saturated) {
+        for (const Row& q : c.rows) {
+            if (&q == &r || !q.fixed() || q.info.kind == 'D' || q.resizes || q.eff_width == 0) continue;
+            if (q.spec && r.spec && spec_overlap(*q.spec, *r.spec)) continue;
+            Val ones(q.val_bytes());
+            for (unsigned i = 0; i < q.eff_width; ++i) ones.set(i, true);
+            SetterCtx qs;
+            set_field(*p, q, ones, qs);
+        }
+        cs.program.push_back("every other field := all ones");
+        ctx.label("state:saturated");
+    }
     bool cond_forced = false;
     if (r.spec && r.spec->cond != wirepos::ALWAYS && cs.force_variant) {
         Src fs(cs.payload.data(), cs.payload.size());
@@ -646,7 +667,7 @@ static void run_case(Src& s, Ctx& ctx, Case& cs) {
     static const char* VK[] = {"uint", "bool", "enum", "small_uint", "bytes", "variable"};
     ctx.label(std::string("kind:") + r.info.kind);
     ctx.label(std::string("type:") + VK[r.info.vk]);
-    ctx.label(cs.mode == 0 ? "state:default" : cs.mode == 1 ? "state:setter-storm" : cs.mode == 2 ? "state:parsed" : "state:parsed+storm");
+    if (!cs.saturated) ctx.label(cs.mode == 0 ? "state:default" : cs.mode == 1 ? "state:setter-storm" : cs.mode == 2 ? "state:parsed" : "state:parsed+storm");
     ctx.label(r.spec ? "position:specified" : (r.map_ok ? "position:learned-only" : "position:none"));
     if (r.fixed()) {
         unsigned w = r.eff_width;
@@ -689,7 +710,7 @@ static void run_case(Src& s, Ctx& ctx, Case& cs) {
                           << "-bit parameter is truncated without an error; getter now " << (after.find(r.info.getter) ? after.find(r.info.getter)->value : "?"));
             if (!sc.threw.empty()) unchanged("rejected-but-modified");
         }
-        ctx.nontrivial(cs.mode != 0);
+        ctx.nontrivial(cs.mode != 0 || cs.saturated);
         return;
     }
 
@@ -775,7 +796,7 @@ static void run_case(Src& s, Ctx& ctx, Case& cs) {
     }
     if (wire_checked) ctx.label("wire-checked");
     const bool odd = r.fixed() && (r.eff_width != 8 || (r.spec && (r.spec->first_bit % 8) != 0));
-    ctx.nontrivial(odd && cs.mode != 0);
+    ctx.nontrivial(odd && (cs.mode != 0 || cs.saturated));
 }
 
 }  // namespace c15
@@ -796,7 +817,7 @@ bool prop_enum(uint64_t idx, std::vector<uint8_t>& out) {
     while (hi - lo > 1) { size_t mid = (lo + hi) / 2; if (g_enum[mid].first <= idx) lo = mid; else hi = mid; }
     const EnumBlock& b = g_enum[lo];
     uint32_t v = (uint32_t)(idx - b.first);
-    out = {0xff, (uint8_t)b.ci, (uint8_t)b.ri, (uint8_t)(v >> 24), (uint8_t)(v >> 16), (uint8_t)(v >> 8), (uint8_t)v};
+    out = {(uint8_t)(b.saturated ? 0xfe : 0xff), (uint8_t)b.ci, (uint8_t)b.ri, (uint8_t)(v >> 24), (uint8_t)(v >> 16), (uint8_t)(v >> 8), (uint8_t)v};
     return true;
 }
 
@@ -804,13 +825,18 @@ void prop(Src& s, Ctx& ctx) {
     init_tables();
     Case cs;
     uint8_t sel = s.u8();
-    if (sel == 0xff) {
+    if (sel == 0xff || sel == 0xfe) {
         cs.enumerated = true;
         cs.ci = s.u8() % g_classes.size();
         cs.ri = s.u8() % g_classes[cs.ci].rows.size();
         const Row& r = g_classes[cs.ci].rows[cs.ri];
         uint32_t x = s.u32();
         if (!r.fixed()) { cs.v = gen_value(s, r); }
+        else if (sel == 0xfe) {
+            cs.saturated = true;
+            cs.v = Val(r.val_bytes());
+            for (unsigned i = 0; i < r.eff_width; ++i) cs.v.set(i, x % 3 == 1 || (x % 3 == 2 && (i & 1)));
+        }
         else {
             unsigned bits = r.info.vk == VK_ENUM ? r.eff_width : std::min(r.info.repr_bits, 32u);
             if (bits < 32) x &= (1u << bits) - 1;
@@ -820,7 +846,7 @@ void prop(Src& s, Ctx& ctx) {
             if (x > fieldmax && !cs.overflow) cs.v = Val::of(x & fieldmax, r.val_bytes());
         }
         cs.mode = 0;
-        ctx.label("enumerated");
+        ctx.label(cs.saturated ? "enumerated:saturated-state" : "enumerated:all-values");
     } else {
         cs.ci = (unsigned)s.pick(g_classes.size());
         cs.ri = (unsigned)s.pick(g_classes[cs.ci].rows.size());
